@@ -350,6 +350,62 @@ def job_stability(job, seed):
     return {'obligations': obs, 'candidates': cands, 'paths': 1}
 
 
+def job_length_stability(job, seed):
+    """First-order forward-error analysis of the REAL length kernels on the family 'a common offset u along x plus a
+    separation d': L1, L2, Ltotal without scattering computed from positions (u+d,0,0) and (u,0,0) carry an absolute
+    rounding error of at most 8 u_roundoff * d for EVERY offset u - i.e. the error is relative to the length, not to the
+    distance of the beamline from the coordinate origin (a |p|^2 - 2 p.s + |s|^2 formulation is refuted)."""
+    which = job
+    import numpy as np
+    from symex import core as C
+    from symex import loader
+    from symex.errs import EV
+    from symsc import variable as V
+    from .symutil import fresh_run
+
+    sc = loader.install_shim()
+    bl = loader.load('conversion.beamline')
+    fresh_run()
+    obs, cands = [], []
+    case = {'kind': 'length-stability', 'which': which}
+    u, d = C.sym_var('offset'), C.sym_var('sep', sign='+')
+
+    def vecv(comps):
+        a = np.empty((3,), dtype=object)
+        for i, x in enumerate(comps):
+            a[i] = EV(x)
+        return V.Variable(_arr=a, dims=(), unit=V.parse_unit('m'), dtype=V.DType.vector3)
+
+    far, near = vecv([u + d, 0, 0]), vecv([u, 0, 0])
+    calls = {
+        'Ltotal (no scatter)': lambda: bl.total_straight_beam_length_no_scatter(source_position=near, position=far),
+        'L1 from positions': lambda: bl.L1(incident_beam=bl.straight_incident_beam(source_position=near, sample_position=far)),
+        'L2 from positions': lambda: bl.L2(scattered_beam=bl.straight_scattered_beam(position=far, sample_position=near)),
+    }
+    f = calls[which]
+    tag = f'length-stability[{which}]'
+    paths = C.explore(f)
+    p = paths[0]
+    if len(paths) != 1 or p.exc is not None or p.inconclusive or not isinstance(getattr(p.value, 'value', None), EV):
+        obs.append({'name': f'{tag}:error analysis runs', 'status': 'inconclusive', 'detail': str(p.inconclusive or repr(p.exc) or 'result carries no error term')[:200], 't': 0})
+        return {'obligations': obs, 'candidates': cands, 'paths': len(paths)}
+    r = p.value.value
+    ob = C.prove(f'{tag}:value = separation', r.v == d)
+    obs.append(ob_dict(ob))
+    ob = C.prove(f'{tag}:accumulated absolute rounding error <= 8 u x length, for every offset of the beamline from the origin', r.k <= 8 * d, timeout_ms=60000)
+    obs.append(ob_dict(ob))
+    if ob.status == 'violated':
+        cands.append(('C03:length:stability', {**case, 'model': {k_: float(v) for k_, v in (ob.model or {}).items()}}, 'rounding error grows with the distance from the origin'))
+    if which.startswith('Ltotal'):
+        def expanded():
+            return sc.sqrt(sc.dot(far, far) - 2 * sc.dot(far, near) + sc.dot(near, near))
+        q = C.explore(expanded)[0]
+        if q.value is not None and isinstance(q.value.value, EV):
+            ob = C.prove('canary', q.value.value.k <= 8 * d, timeout_ms=60000)
+            obs.append({'name': f'{tag}:canary: sqrt(p.p - 2 p.s + s.s) has unbounded relative error (must be refuted)', 'status': 'discharged' if ob.status == 'violated' else 'inconclusive', 't': ob.t})
+    return {'obligations': obs, 'candidates': cands, 'paths': 1}
+
+
 def run(chk):
     from symex import loader
 
@@ -360,6 +416,7 @@ def run(chk):
     run_jobs(chk, job_euclid, [(True, None), (False, None), (True, 2), (False, 2)])
     run_jobs(chk, job_two_theta, ['definition', 'units', 'symmetry', 'rescale', 'rotation', 'stability-canary'])
     run_jobs(chk, job_stability, [False, True])
+    run_jobs(chk, job_length_stability, ['Ltotal (no scatter)', 'L1 from positions', 'L2 from positions'])
     from . import shimval
     shimval.validate(chk, 'beamline', 40 if chk.tier == 'quick' else 240)
     chk.bounds = {'arrays': 'scalar and 2 detector pixels', 'values': 'all real position vectors with distinct positions; symbolic length unit'}
@@ -393,6 +450,25 @@ def replay_real(case):
         x = mp.sqrt(sum((a + b) ** 2 for a, b in zip(uu, vv, strict=True)))
         return 2 * mp.atan2(y, x)
 
+    if case['kind'] == 'length-stability':
+        # beamlines far from the coordinate origin compared with their length (site-wide frames, a monitor close to the source)
+        worst = 0.0
+        for trial in range(200):
+            off = rng.normal(size=3) * 10 ** rng.uniform(2, 7)
+            dvec = rng.normal(size=3) * 10 ** rng.uniform(-2, 2)
+            src, pos = off, off + dvec
+            exact = mp.sqrt(sum((mp.mpf(float(a)) - mp.mpf(float(b))) ** 2 for a, b in zip(pos, src, strict=True)))
+            got = {
+                'Ltotal (no scatter)': lambda: rb.total_straight_beam_length_no_scatter(source_position=sc.vector(src, unit='m'), position=sc.vector(pos, unit='m')).value,
+                'L1 from positions': lambda: rb.L1(incident_beam=rb.straight_incident_beam(source_position=sc.vector(src, unit='m'), sample_position=sc.vector(pos, unit='m'))).value,
+                'L2 from positions': lambda: rb.L2(scattered_beam=rb.straight_scattered_beam(position=sc.vector(pos, unit='m'), sample_position=sc.vector(src, unit='m'))).value,
+            }[case['which']]()
+            rel = float(abs(mp.mpf(float(got)) - exact) / exact) if np.isfinite(got) else float('inf')
+            worst = max(worst, rel)
+            if rel > 1e-13:
+                bad.append(f'{case["which"]}: source {src.tolist()}, position {pos.tolist()}: {got!r} vs exact {mp.nstr(exact, 17)} (relative error {rel:.3g})')
+                break
+        return {'reproduced': bool(bad), 'detail': '; '.join(bad[:2])}
     if case['kind'] == 'two_theta' and case.get('model') and any(k.startswith('b1_') for k in case['model']):
         m = case['model']
         sL = m.get('L', 1.0) or 1.0
